@@ -45,6 +45,10 @@ def log(*a):
 # --------------------------------------------------------------------------------------------
 # context / evidence
 # --------------------------------------------------------------------------------------------
+import threading
+_COV_LOCK = threading.Lock()
+
+
 class Ctx:
     def __init__(self, prop, tier, seed, level):
         assert level in LEVELS
@@ -68,6 +72,11 @@ class Ctx:
     @property
     def quick(self):
         return self.tier == "quick"
+
+    def add(self, key, n):
+        """thread-safe counter update (stages and trace-validation parts run in threads)"""
+        with _COV_LOCK:
+            self.cov[key] = self.cov.get(key, 0) + n
 
     def sub(self, name):
         d = os.path.join(self.scratch, name)
@@ -440,6 +449,25 @@ def scenario_index(events, marker="Scenario"):
     return spans
 
 
+def run_parallel(fns):
+    """run independent stages (each mostly waits for TLC / harness subprocesses) in threads; the first failure is
+    re-raised after all of them have ended."""
+    import concurrent.futures
+    errs = []
+    with concurrent.futures.ThreadPoolExecutor(max_workers=len(fns)) as ex:
+        futs = [ex.submit(f) for f in fns]
+        for f in futs:
+            try:
+                f.result()
+            except BaseException as e:      # noqa: B902 - re-raised below
+                errs.append(e)
+    for e in errs:
+        if not isinstance(e, Infra):
+            raise e
+    if errs:
+        raise errs[0]
+
+
 def validate_traces_parallel(ctx, module, trace_path, invariants, prop_prefix, chunks=8, max_reports=40, heap="8g", **kw):
     """validate_traces on `chunks` parts of the trace (cut at scenario boundaries) in parallel TLC processes: a
     violating scenario only costs a re-run of its own part. Scenarios are independent (one initial state each)."""
@@ -576,6 +604,6 @@ def validate_traces(ctx, module, trace_path, invariants, prop_prefix, constants=
             log("too many violating scenarios; stopping after %d" % reports)
             break
     n = len(spans)
-    ctx.cov["traces_validated_against_impl"] += n
-    ctx.cov["trace_events_validated"] += len(events) - n
+    ctx.add("traces_validated_against_impl", n)
+    ctx.add("trace_events_validated", len(events) - n)
     return n
